@@ -180,7 +180,13 @@ where
             let _ = out.flush();
         }
         drop(s);
-        let rep = run(&case);
+        let rep = match std::panic::catch_unwind(std::panic::AssertUnwindSafe(|| run(&case))) {
+            Ok(r) => r,
+            Err(_) => {
+                let (loc, msg) = take_panic().unwrap_or(("?".into(), "?".into()));
+                CaseReport { fail: Some(Fail::new("harness|panic", format!("harness code panicked at {}: {}", loc, msg))), evaluations: 1, ..CaseReport::default() }
+            }
+        };
         let mut s = st.borrow_mut();
         let counting = !s.failed;
         if counting {
@@ -234,7 +240,10 @@ where
         Ok(()) => {}
         Err(TestError::Fail(_, minimal)) => {
             // re-run the minimal case to get its own key, detail and trace
-            let rep = run(&minimal);
+            let rep = match std::panic::catch_unwind(std::panic::AssertUnwindSafe(|| run(&minimal))) {
+                Ok(r) => r,
+                Err(_) => CaseReport { fail: Some(Fail::new("harness|panic", "harness code panicked on the minimal case")), ..CaseReport::default() },
+            };
             let (f, trace) = match rep.fail {
                 Some(f) if known.lookup(&ctx.id, &f.key).is_none() => (f, rep.trace),
                 _ => s.last_fail.take().unwrap_or((Fail::new("unknown", "failure did not reproduce on the minimal case"), vec![])),
@@ -614,7 +623,12 @@ pub fn check_main(def: &PropDef, tier: Tier) -> i32 {
                     known_lines.insert(k, w);
                 }
                 if let Some(e) = r.harness_error {
-                    inconclusive.push(e);
+                    if let Some(v) = &r.violation {
+                        let p = write_replay(def.id, v);
+                        inconclusive.push(format!("{} (case saved as {})", e, p.display()));
+                    } else {
+                        inconclusive.push(e);
+                    }
                 } else if let Some(v) = r.violation {
                     let p = write_replay(def.id, &v);
                     println!("worker {}: {} :: {}", c.idx, v.key, v.detail);
